@@ -15,9 +15,11 @@ def _dec(s):
     return raw.decode("utf-8", "surrogateescape")
 
 
-def _tok_class(cfg, hdr, tok, tok2):
+def _tok_class(cfg, hdr, tok, tok2, old=""):
     if hdr == "none":
         return "none"
+    if old != "" and old != cfg and tok == old:
+        return "old-token"
     if cfg == "":
         return "empty" if tok == "" else "any"
     if tok == cfg:
@@ -42,13 +44,19 @@ def _tok_class(cfg, hdr, tok, tok2):
     return "other"
 
 
+RELOAD_CLASSES = {"other-token", "cleared", "whitespace-only"}
 CFG_CLASSES = {"empty", "ordinary", "whitespace-only", "outer-whitespace", "inner-whitespace", "long", "non-ascii"}
 
 
-def _need(cfg):
-    """request-token classes that exist for this configured token"""
+def _need(cfg, old=""):
+    """request-token classes that exist for this configured token (old: the token configured before the reload)"""
+    extra = {"old-token"} if old != "" and old != cfg else set()
     if cfg == "":
-        return {"none", "empty", "any"}
+        return {"none", "empty", "any"} | extra
+    return _need_set(cfg) | extra
+
+
+def _need_set(cfg):
     need = {"none", "empty", "exact", "second-value", "extension", "other"}
     if cfg.strip() != "":
         need |= {"whitespace-only", "exact-plus-whitespace"}
@@ -62,34 +70,41 @@ def _need(cfg):
 
 
 def _case_summary(c):
-    """-> (cfg, {tmpl: {path: set(token classes)}}, n data, n error, n data with secrets)"""
+    """-> (phases, n data, n error, n data with secrets); a phase = (configured token in force, token before
+    the last reload, {(via, tmpl): {path: set(token classes)}}); a `reload` op starts a new phase"""
     cfg = _dec(_kv(c["header"].split(" "), "cfgtok"))
-    per, cur = {}, None
+    phases = [(cfg, "", {})]
+    cur = None
     nd = ne = nds = 0
     sec = 0
     for l in c["lines"]:
         t = l.split(" ")
-        if t[0] == "op":
-            cur = (_dec(_kv(t, "tmpl")), _dec(_kv(t, "path")),
-                   _tok_class(cfg, _kv(t, "hdr"), _dec(_kv(t, "tok")), _dec(_kv(t, "tok2"))))
+        if t[0] == "op" and t[1] == "reload":
+            new = _dec(_kv(t, "tok"))
+            phases.append((new, phases[-1][0], {}))
+            cur = None
+        elif t[0] == "op":
+            cfg, old, _ = phases[-1]
+            cur = ((_kv(t, "via") or "router", _dec(_kv(t, "tmpl"))), _dec(_kv(t, "path")),
+                   _tok_class(cfg, _kv(t, "hdr"), _dec(_kv(t, "tok")), _dec(_kv(t, "tok2")), old))
             sec = 0
         elif t[0] == "ext" and len(t) >= 5 and t[1] == "secrets":
             sec = int(t[4])
         elif t[0] == "obs" and cur:
-            per.setdefault(cur[0], {}).setdefault(cur[1], set()).add(cur[2])
+            phases[-1][2].setdefault(cur[0], {}).setdefault(cur[1], set()).add(cur[2])
             if _kv(t, "class") == "data":
                 nd += 1
                 nds += 1 if sec > 0 else 0
             elif _kv(t, "class") == "error":
                 ne += 1
-    return cfg, per, nd, ne, nds
+    return phases, nd, ne, nds
 
 
 def nontrivial(c):
     """refusals for several request tokens; with a configured token also data responses that really
     carry the secrets (so that 'the refusal contains none of them' says something)"""
-    cfg, per, nd, ne, nds = _case_summary(c)
-    if cfg == "":
+    phases, nd, ne, nds = _case_summary(c)
+    if all(p[0] == "" for p in phases):
         return ne >= 6 and nd == 0
     return ne >= 6 and nds >= 1
 
@@ -106,34 +121,45 @@ def custom(vc, spec, tier, seed, replay):
         return rc
     cov = ev["coverage"]
     routes = re.findall(r'"([^"]+)"', cov.get("facts", {}).get("queryRoutes", ""))
-    complete = {}
+    complete, reload_classes = {}, {}
     incomplete = 0
     paths = set()
+    MW = ("mw", "middleware-instance")
     wd = spec["property"] + ("" if vc.REPO == "/repo" else "-" + hashlib.sha1(vc.REPO.encode()).hexdigest()[:10])
     for trf in glob.glob(os.path.join(vc.CACHE, "run", wd, "s*.tr")):   # this run's transcripts (same naming as vcheck's workdir)
         for c in vc.parse_cases(open(trf).read()):
-            cfg, per, nd, ne, nds = _case_summary(c)
-            need = _need(cfg)
-            cls = _kv(c["header"].split(" "), "cls") or "?"
-            ok = bool(routes) and all(
-                r in per and all(need <= classes for classes in per[r].values()) and
-                ("{format}" not in r or len(per[r]) >= 5) for r in routes)
+            phases, nd, ne, nds = _case_summary(c)
+            hdr = c["header"].split(" ")
+            cls, cls2 = _kv(hdr, "cls") or "?", _kv(hdr, "cls2") or "?"
+            ok = bool(routes) and len(phases) == 2
+            for cfg, old, per in phases:
+                need = _need(cfg, old)
+                ok = ok and all(
+                    ("router", r) in per and all(need <= classes for classes in per[("router", r)].values()) and
+                    ("{format}" not in r or len(per[("router", r)]) >= 5) for r in routes)
+                ok = ok and MW in per and all(need <= classes for classes in per[MW].values())
             if ok:
                 complete[cls] = complete.get(cls, 0) + 1
-                for r in per:
-                    paths.update(per[r])
+                reload_classes[cls2] = reload_classes.get(cls2, 0) + 1
+                for cfg, old, per in phases:
+                    for k in per:
+                        if k[0] == "router":
+                            paths.update(per[k])
             else:
                 incomplete += 1
-    cov["exhaustive"] = bool(routes and CFG_CLASSES <= set(complete) and incomplete == 0
+    cov["exhaustive"] = bool(routes and CFG_CLASSES <= set(complete) and RELOAD_CLASSES <= set(reload_classes) and incomplete == 0
                              and not replay and not cov.get("broken"))
     cov["grid"] = {"routes_walked": routes, "concrete_paths": sorted(paths),
                    "cases_complete_by_configured_token_class": complete,
+                   "cases_complete_by_reload_class": reload_classes,
                    "cases_incomplete": incomplete,
                    "space": "every leaf route of the real mux whose template starts with /query x every instantiation "
                             "({format}: json, yaml, toml, JSON, xml; {traceID}: a trace of each shard) x request token "
                             "{no header, empty, whitespace-only, exact, exact plus leading/trailing whitespace, trimmed variant, "
                             "proper prefix, extension, case variant, other, exact as second value} x configured token "
                             "{empty, ordinary, whitespace-only, leading/trailing whitespace, inner whitespace, very long, non-ASCII} "
+                            "x phase {before, after a reload of the token to another token / cleared / whitespace-only, with the rotated-out token "
+                            "among the request tokens} x target {real router, one kept instance of the middleware built before the reload} "
                             "(request classes that do not exist for a configured token, e.g. a case variant of blanks, are not required)"}
     vc.write_evidence(spec["property"], ev)
     return rc
@@ -154,7 +180,9 @@ SPEC = dict(
          "instantiation x every request-token class (no header, empty, proper prefixes, proper suffix, extensions, case variants, "
          "whitespace-only tokens, exact plus leading/trailing whitespace, trimmed and whitespace-stripped variants, different of equal length, exact, exact as second header value, exact as first of two); non-trivial = "
          "at least 6 refusals and, when a token is configured, at least one data response that really contains the secrets "
-         "(shard address, rule marker, config marker); distinct by transcript hash",
+         "(shard address, rule marker, config marker); each case then reloads the token (to another token / cleared / whitespace-only, round-robin) while the router "
+         "keeps running and repeats the grid relative to the new token plus the rotated-out token; every token class is also sent "
+         "through one instance of queryTokenChecker that was built before the reload; distinct by transcript hash",
     trusted_base=["gorilla/mux routing and Walk, net/http/httptest (requests are served in-process by the handler LnS installed)",
                   "repo mocks: MockConfig (QueryAuthToken, sampler rules, config metadata), MockSharder"],
     manifest=dict(
@@ -171,5 +199,8 @@ SPEC = dict(
     ),
     assumptions=["header values are valid UTF-8 (Lean strings); Go compares bytes",
                  "requests reach the handler as sent (no proxy in front that trims or merges header values)",
+                 "endpoints follow a reload because mux rebuilds the middleware chain per matched request (gorilla/mux v1.8.1 "
+                 "Router.Match) — observed through the real router, not assumed; the kept-instance comparison pins the closure's "
+                 "own per-request lookup as a correspondence obligation (model comparison only, no monitor verdict)",
                  "only GET is routed to the /query sub-router (other methods fall through to the proxy route, out of scope)"],
 )
